@@ -127,6 +127,9 @@ func (s *Rtmp2MpegtsRemuxer) FeedRtmpMessage(msg base.RtmpMsg) {
 }
 
 func (s *Rtmp2MpegtsRemuxer) Dispose() {
+	// 注意，输入流结束时，前置的分析队列中可能还缓存着数据（比如只有音频或只有视频的流，数据量还没达到分析阈值），
+	// 需要先把这部分数据吐出来
+	s.filter.drainIfNeeded()
 	s.FlushAudio()
 }
 
